@@ -10,7 +10,7 @@ COUNTS = dict(quick=1500, thorough=60000)
 RULE = ('cases = random flat machines (1-5 states, 1-3 events, 1-4 candidates per (event, source), 0-3 callbacks '
         'per slot, wildcard-free after expansion, internal/reflexive transitions, final flags, both ignore levels, '
         'send_event on/off) x env (condition values by position and by callback) x histories of 1-8 calls '
-        '(trigger(name) / event method, unknown events); every 7th case is from the malformed stream '
+        '(trigger(name) / event method, unknown events; every 4th case interleaves may_trigger calls); every 7th case is from the malformed stream '
         '(unregistered destinations). Non-trivial: some call executed a transition after at least one failed '
         'condition/unless check (a blocked earlier candidate or check), distinct by hash of the case.')
 ASSUMPTIONS = ['callbacks in this check neither raise nor call back into the machine (C04/C05 cover those)',
@@ -19,7 +19,16 @@ THEOREMS = ['C01_order', 'C01_invalid']
 
 
 def gen(rng, i, tier):
-    return flat.gen_case(rng, malformed=(i % 7 == 6))
+    c = flat.gen_case(rng, malformed=(i % 7 == 6))
+    if i % 4 == 1:
+        # may_<event>() calls interleaved with the triggers: they must not influence what later triggers do
+        hist = []
+        for (k, e, a) in c['history']:
+            if rng.random() < 0.6:
+                hist.append((1, e, 300 + a))
+            hist.append((k, e, a))
+        c['history'] = hist
+    return c
 
 
 def enc(case):
